@@ -436,6 +436,40 @@ fn main() {
             println!("results={}", results.join(","));
             println!("all_ok={}", results.iter().all(|r| r.ends_with("created:reopened")));
         }
+        // grandparent_gap : level 2 holds [a..b] and [y..z], level 1 holds [d..y], level 0 holds [a..e]; compacting everything merges
+        // the level-0 and level-1 tables while both level-2 tables are "grandparents"; the first key checked against them (d) lies
+        // beyond the first grandparent. compact_range must come back (20 s watchdog) and every value must be intact
+        "grandparent_gap" => {
+            use raindb::{ReadOptions, WriteOptions};
+            let mut o = raindb::DbOptions::with_memory_env();
+            o.db_path = "db".to_string();
+            o.create_if_missing = true;
+            let db = std::sync::Arc::new(raindb::DB::open(o).expect("open"));
+            let put = |k: &str, val: &str| db.put(WriteOptions::default(), k.as_bytes().to_vec(), val.as_bytes().to_vec()).unwrap();
+            let flush = || db.compact_range(Some("0".as_bytes())..Some("1".as_bytes()));
+            put("a", "a-old"); put("b", "b-old"); flush();
+            put("y", "y-old"); put("z", "z-old"); flush();
+            put("d", "d-mid"); put("y", "y-mid"); flush();
+            put("a", "a-new"); put("e", "e-new"); flush();
+            let per_level: Vec<String> = (0..4).map(|l| db.get_descriptor(raindb::db::DatabaseDescriptor::NumFilesAtLevel(l)).unwrap_or_default()).collect();
+            println!("files_per_level={}", per_level.join(","));
+            let (tx, rx) = std::sync::mpsc::channel();
+            let db2 = std::sync::Arc::clone(&db);
+            std::thread::spawn(move || {
+                db2.compact_range(None..None);
+                let _ = tx.send(());
+            });
+            match rx.recv_timeout(std::time::Duration::from_secs(20)) {
+                Ok(()) => println!("compact_range=returned"),
+                Err(_) => {
+                    println!("compact_range=stuck");
+                    std::process::exit(0);
+                }
+            }
+            let want = [("a", "a-new"), ("b", "b-old"), ("d", "d-mid"), ("e", "e-new"), ("y", "y-mid"), ("z", "z-old")];
+            println!("values_ok={}", want.iter().all(|(k, val)| db.get(ReadOptions::default(), k.as_bytes()).map(|x| x == val.as_bytes()).unwrap_or(false)));
+            std::process::exit(0);
+        }
         // trivial_move n0 n1 : level 1 holds n0 (1..2) adjacent files which are the chosen inputs, level 2 holds n1 files that
         // overlap them; after the real input finalisation the manifest is asked whether this is a trivial move
         "trivial_move" => {
